@@ -137,7 +137,9 @@ RULE = ("one stratum per native strategy (CMA-ES, sep-CMA-ES, LM-MA-ES, OpenAI-E
         "arrive as float arrays, lists of floats, lists of ints, int32 / int64 arrays mixed in one history; LM-MA-ES at "
         "dimension 40..56 with 33..44 direction vectors for 36..48 generations without reset (learning rates against the "
         "model, iterations on the implementation-side oracles); float32 LM-MA-ES / OpenAI-ES in boxes that reject rows "
-        "(the per-row record of the draws); one deterministic LM-MA-ES run with batch_size == solution_dim (open "
+        "(the per-row record of the draws); non-mirror OpenAI-ES with bounds accepting < 1 % of the draws (hundreds of "
+        "resampling rounds, beyond BOUNDS_SAMPLING_THRESHOLD); LM-MA-ES with n_vectors from 1 to 2*batch_size and "
+        "histories longer than both; one deterministic LM-MA-ES run with batch_size == solution_dim (open "
         "finding D50). A strategy case is non-trivial when some iteration selects >= 2 parents under a non-identity "
         "permutation; a gradient case when >= 2 non-zero gradients are stepped; counted once per distinct op list")
 PARTIAL = [
@@ -388,7 +390,7 @@ def ctor_bounds(case, dt):
 # float reference of the resample loop (oracle side; independent of the Lean model)
 
 
-def replay_loop(batch, dim, draw, transform, lb, ub):
+def replay_loop(batch, dim, draw, transform, lb, ub, max_rounds=None):
     """Returns (rounds, rows, rec, margin) or None when more than MAX_ROUNDS rounds are needed."""
     remaining = np.arange(batch)
     rows = np.full((batch, dim), np.nan)
@@ -397,7 +399,7 @@ def replay_loop(batch, dim, draw, transform, lb, ub):
     margin = np.inf
     lbf, ubf = np.asarray(lb, dtype=np.float64), np.asarray(ub, dtype=np.float64)
     while len(remaining) > 0:
-        if len(rounds) >= MAX_ROUNDS:
+        if len(rounds) >= (max_rounds or MAX_ROUNDS):
             return None
         d = draw(len(remaining))
         x = transform(d)
@@ -672,7 +674,7 @@ def run_es_case(case):
                     return f
                 count(f"{kind}:reset")
                 continue
-            if width_guard(case, es, kind, lb64, ub64):
+            if not case.get("tight") and width_guard(case, es, kind, lb64, ub64):
                 count(f"{kind}:stop-width-guard")
                 return None
             f = es_iteration(case, es, shadow, op, where, kind, dt, tol, dim, batch, lb, ub, lb64, ub64, adam_ref)
@@ -831,10 +833,12 @@ def es_iteration(case, es, shadow, op, where, kind, dt, tol, dim, batch, lb, ub,
         rounds, rec = [half], np.concatenate((half, -half))
         ref, margin = tf(half), np.inf
     else:
-        rp = replay_loop(batch, dim, draw, tf, lb64, ub64)
+        rp = replay_loop(batch, dim, draw, tf, lb64, ub64, case.get("max_rounds"))
         if rp is None:
             raise Stop("too-many-rounds")
         rounds, ref, rec, margin = rp
+        if len(rounds) > 100:
+            count(f"{kind}:asks-with-more-than-100-rounds")  # beyond BOUNDS_SAMPLING_THRESHOLD: still resampling
     if margin < 4 * tol * scale:
         raise Stop("bounds-tie-zone")
     if len(rounds) > 1:
@@ -1614,7 +1618,13 @@ def gen_es(kind, mirror=False, quick=True):
             hi = math.ceil((max(x0) + 2 * sigma0) * 16) / 16
             case["lb"], case["ub"] = [lo] * dim, [hi] * dim
         if kind == "lm" and rng.random() < 0.4:
-            case["nvec"] = rng.randint(1, batch + 1)
+            # n_vectors different from batch_size (smaller and larger), with a history longer than both, so that
+            # the number of active direction vectors min(current_gens, n_vectors) is told apart from every other count
+            case["nvec"] = rng.randint(1, 2 * batch)
+            need = max(batch, case["nvec"]) + 3
+            if case["nvec"] != batch and len(case["ops"]) < need:
+                extra = __import__("random").Random(case["seed"] ^ 0x9E3779B1)
+                case["ops"] += gen_perm_ops(extra, batch, need - len(case["ops"]), dim, 2, reset_p=0.0)
         if kind == "openai":
             case["mirror"] = mirror
             case["adam"] = {"lr": rng.choice([0.001, 0.01, 0.05, 0.125]), "beta1": rng.choice([0.9, 0.5, 0.0, 0.75]),
@@ -1844,6 +1854,38 @@ def gen_recorded_f32(quick=True):
     return gen
 
 
+def gen_openai_tight(quick=True):
+    """non-mirror OpenAI-ES whose bounds accept well under 1 % of the draws (a slab of width ~sigma0/100 around
+    theta, or a half-line starting 2.6 sigma0 away from it): hundreds of resampling rounds, far beyond
+    BOUNDS_SAMPLING_THRESHOLD = 100.  The resampling loop must keep going, every returned row must be in bounds and
+    equal theta + sigma0 * noise[i] for the recorded noise (`no_model`: implementation-side oracles only)."""
+    def gen(rng):
+        dim = rng.randint(1, 3)
+        batch = rng.randint(2, 4)
+        sigma0 = rng.choice([0.5, 1.0, 2.0])
+        x0 = [dyadic(rng, -2, 2, 8) for _ in range(dim)]
+        lb, ub = [None] * dim, [None] * dim
+        j = rng.randrange(dim)
+        r = rng.random()
+        if r < 0.4:      # slab around theta: acceptance ~ 0.4 %
+            lb[j], ub[j] = x0[j] - sigma0 / 256, x0[j] + sigma0 / 256
+        elif r < 0.7:    # half-line beyond theta: acceptance ~ 0.47 %
+            lb[j] = x0[j] + 2.625 * sigma0
+        else:
+            ub[j] = x0[j] - 2.625 * sigma0
+        n_iter = rng.randint(1, 2) if quick else rng.randint(1, 4)
+        case = {"kind": "openai", "mirror": False, "dim": dim, "batch": batch,
+                "dtype": F64 if rng.random() < 0.8 else F32, "seed": rng.randrange(1 << 31), "sigma0": sigma0,
+                "x0": x0, "lb": lb, "ub": ub, "layout": "tight", "x0_layout": "exact", "tight": True,
+                "no_model": True, "max_rounds": 20000,
+                "adam": {"lr": 0.001, "beta1": 0.9, "beta2": 0.999, "epsilon": 1e-8, "l2_coeff": 0.0},
+                "ops": gen_perm_ops(rng, batch, n_iter, dim, 2, reset_p=0.0)}
+        for op in case["ops"]:
+            op["mu"] = max(op["mu"], 1)
+        return case
+    return gen
+
+
 D50_KEY = "D50-lm-ma-es-batch-equals-dim"
 
 
@@ -1989,6 +2031,7 @@ def strata(quick):
         ("lowdim-many-parents", gen_lowdim(quick), nontrivial_es, 10, 400, 0.8),
         ("lmma-large", gen_lm_large(quick), nontrivial_es, 3, 60, 0.5),
         ("recorded-f32-bounded", gen_recorded_f32(quick), nontrivial_es, 8, 300, 0.4),
+        ("openai-tight-bounds", gen_openai_tight(quick), nontrivial_any, 4, 80, 0.3),
         ("lmma-batch-equals-dim", gen_lm_degenerate(quick), nontrivial_any, 1, 1, 0.1),
         ("pycma", gen_pycma(quick), nontrivial_es, 12, 400, 0.5),
         ("pycma-converge", gen_pycma_converge(quick), nontrivial_any, 6, 120, 0.6),
